@@ -71,6 +71,8 @@ def parseOp (toks : List String) : Option Op :=
   | "sub" :: p :: c :: s :: typ :: ctr :: ack :: _ => some (.call p.toNat! ctr.toNat! (ack == "1") (.sub (parseAddr c) (parseAddr s) typ.toNat!))
   | "unsub" :: p :: c :: s :: ctr :: ack :: _ => some (.call p.toNat! ctr.toNat! (ack == "1") (.unsub (parseAddr c) (parseAddr s)))
   | "reann" :: p :: ctr :: ref :: ack :: _ => some (.reann p.toNat! ctr.toNat! (if ref == "-" then none else ref.toNat?) (ack == "1"))
+  | "full" :: p :: keep :: ctr :: ack :: _ =>
+    some (.full p.toNat! ((keep.splitOn ",").map parseEnt) ctr.toNat! (ack == "1"))
   | "entrem" :: p :: e :: ctr :: ack :: _ => some (.entRem p.toNat! (parseEnt e) ctr.toNat! (ack == "1"))
   | "entadd" :: p :: e :: ctr :: ack :: _ => some (.entAdd p.toNat! (parseEnt e) ctr.toNat! (ack == "1"))
   | ["drop", p] => some (.drop p.toNat!)
